@@ -551,8 +551,8 @@ func (w *World) closureCases(lit *ssa.Function, errIdx int, nr *noReturnInfo) []
 }
 
 type errflowScope struct {
-	pkgs    []string          // all functions of these packages
-	fnNames map[string]bool   // or only these functions (short names, closures included by prefix)
+	pkgs    []string        // all functions of these packages
+	fnNames map[string]bool // or only these functions (short names, closures included by prefix)
 	only    func(s errSource) bool
 	tag     string
 }
